@@ -256,7 +256,8 @@ def plan_for(prop, tier, seed):
         fams = TSTD
         names = ("w123", "greek", "thai") if q else ("w123", "greek", "thai", "cjk", "tokyo", "astral", "a5")
         for n in names:
-            P.add(cw(n), *fams)
+            # astral: two symbolic reads of a 128 k-entry mapper table (T2) exceed 16 GB
+            P.add(cw(n), *[f for f in fams if not (n == "astral" and f == "T2")])
             P.add(Entry("bw_as_%s_st" % n, "bytewise", "standard", corpus.cw_fixed()[n]), *fams)
         for kind in ("longest", "first"):
             P.add(cw("w123", kind), "T1", "T2", "T34", "T5")
